@@ -1456,6 +1456,8 @@ impl Parser {
                         expr
                     }
                 } else {
+                    let tuple_end = self.expect(&TokenEnum::RightParen)?;
+                    let meta = join_meta(meta, tuple_end);
                     Expr::untyped(ExprEnum::TupleLiteral(vec![]), meta)
                 }
             }
